@@ -52,8 +52,9 @@ def is_sorted(v, assume=()):
             return is_sorted(v.args[1], assume) and is_sorted(v.args[2], assume)
         if v.fn == "getitem":
             base, idx = strip_views(v.args[0]), strip_views(v.args[1])
-            if isinstance(idx, App) and idx.fn == "argsort" and idx.args and strip_views(idx.args[0]) == base and not idx.kw:
-                return True
+            if isinstance(idx, App) and idx.fn == "argsort" and idx.args and strip_views(idx.args[0]) == base \
+                    and all(k in ("kind", "stable") or (k == "axis" and a in (Const(-1), Const(0), Const(None))) for k, a in idx.kw):
+                return True   # every sorting algorithm (`kind=`) yields an ascending arrangement; only the order among ties differs
             if is_sorted(base, assume) and (is_mask(idx) or is_monotone_index(idx)):
                 return True
             if is_sorted(base, assume) and isinstance(idx, App) and idx.fn == "slice":
